@@ -114,6 +114,15 @@ def probes():
         out.append(dict(id=10 ** 6 + len(out), seed=0, must_accept=True,
                         spec=dict(f=30.0, wires=[gen.wire(4, [-1.0, 0.0, 0.5], [0.0, 0.0, za], 0.0005), gen.wire(4, [0.0, 0.0, zb], [1.0, 0.0, 0.5], 0.0005)],
                                   media=None, family='probe-free-space-near-z0', tagmode='none', sources=[], loads=[])))
+    # ends whose offset is oblique to the axes: the distance decides (1.2 and 1.5 tolerances apart although every single
+    # coordinate differs by less than one tolerance: not joined; 0.9 tolerances: joined)
+    t_ = 1e-3 * 0.25
+    for k_, dirv in ((1.2, (1, 1, 1)), (1.5, (1, 1, 1)), (0.9, (1, 1, 1)), (1.2, (1, -1, 0)), (1.3, (0, 1, 1)), (0.95, (1, 0, -1))):
+        nrm = math.sqrt(sum(c * c for c in dirv))
+        off = [k_ * t_ * c / nrm for c in dirv]
+        out.append(dict(id=10 ** 6 + len(out), seed=0, must_accept=True,
+                        spec=dict(f=30.0, wires=[gen.wire(4, [-1.0, 0.0, 0.0], [0.0, 0.0, 0.0], 0.0005), gen.wire(4, off, [off[0], off[1] + 1.0, off[2]], 0.0005)],
+                                  media=None, family='probe-oblique-offset', tagmode='none', sources=[], loads=[])))
     # a transformation of ONE tagged wire moves its end away from a junction (or onto another one): junctions are decided on the
     # transformed conductors
     for v_, fam in (([0.0, 0.6, 0.0], 'probe-tagged-move-away'), ([0.0, 0.0, 0.0], 'probe-tagged-move-zero'), ([1.5, 0.0, 0.0], 'probe-tagged-move-onto')):
